@@ -60,20 +60,32 @@ pub struct Frame {
 
 /// What ecalls do, for the numbers whose RARS meaning is unambiguous.
 /// (reads, writes, exits)
+/// Environment calls of RARS that work on integer registers only, written from the RARS help
+/// ("Syscalls" table), independently of the analyzer's table: (registers read, registers written, exits).
+/// Services that write memory through a pointer argument (8, 17, 54, 63) and the floating-point ones
+/// are left out of the generated programs.
 pub fn ecall_table(num: u32) -> Option<(&'static [Reg], &'static [Reg], bool)> {
     Some(match num {
-        1 | 4 | 11 | 32 | 34 | 35 | 36 => (&[10], &[], false),
+        1 | 4 | 11 | 32 | 34 | 35 | 36 | 57 => (&[10], &[], false),
         5 | 12 => (&[], &[10], false),
-        9 | 41 => (&[10], &[10], false),
+        9 | 41 | 50 => (&[10], &[10], false),
         10 => (&[], &[], true),
         30 => (&[], &[10, 11], false),
-        42 => (&[10, 11], &[10], false),
+        31 | 33 => (&[10, 11, 12, 13], &[], false),
+        40 | 55 | 56 | 59 => (&[10, 11], &[], false),
+        42 | 1024 => (&[10, 11], &[10], false),
+        // InputDialogInt: message in a0; value in a0, status in a1
+        51 => (&[10], &[10, 11], false),
+        // InputDialogFloat / InputDialogDouble: message in a0; value in fa0, status in a1 (only used by a
+        // directed family of C01: the analyzer's table does not list them)
+        52 | 53 => (&[10], &[11], false),
+        62 | 64 => (&[10, 11, 12], &[10], false),
         93 => (&[10], &[], true),
         _ => return None,
     })
 }
 
-pub const KNOWN_ECALLS: [u32; 15] = [1, 4, 5, 9, 10, 11, 12, 30, 32, 34, 35, 36, 41, 42, 93];
+pub const KNOWN_ECALLS: [u32; 28] = [1, 4, 5, 9, 10, 11, 12, 30, 31, 32, 33, 34, 35, 36, 40, 41, 42, 50, 51, 55, 56, 57, 59, 62, 64, 93, 1024, 1024];
 
 pub struct Machine<'a> {
     pub flat: &'a Flat,
